@@ -28,6 +28,24 @@ FAMILIES = {
                                                    "thorough": dict(num=2500, depth=25, consts={"GenSet": '"full"', "PauseSet": '"full"'}, seeds=4)}),
         ],
         mode="app", controls="nopause,nopt", swap=False),
+    "REQ": dict(
+        mc=("MC_Req", "MC_Req.cfg", {"quick": {"ReqSet": '"small"'}, "thorough": {"ReqSet": '"full"'}}),
+        gens=[("Gen_Req", "Gen_Req.cfg", "bfs", {"quick": dict(depth=1, consts={"ReqSet": '"small"'}),
+                                               "thorough": dict(depth=1, consts={"ReqSet": '"full"'})})],
+        replays=[dict(mode="instr", controls="", swap=False), dict(mode="app", controls="", swap=False)]),
+    "FAULT": dict(
+        mc=("MC_Fault", "MC_Fault.cfg", {"quick": {"FaultSet": '"single"', "MaxDepth": "2"}, "thorough": {"FaultSet": '"pairs"', "MaxDepth": "2"}}),
+        gens=[("Gen_Fault", "Gen_Fault.cfg", "bfs", {"quick": dict(depth=1, consts={"FaultSet": '"single"', "GenSet": '"clean"'}),
+                                                   "thorough": dict(depth=1, consts={"FaultSet": '"pairs"', "GenSet": '"clean"'})}),
+              ("Gen_Fault", "Gen_Fault.cfg", "bfs", {"quick": dict(depth=1, consts={"FaultSet": '"single"', "GenSet": '"dust"'}),
+                                                   "thorough": dict(depth=1, consts={"FaultSet": '"pairs"', "GenSet": '"dust"'})})],
+        replays=[dict(mode="instr", controls="", swap=False)]),
+    "ORDER": dict(
+        mc=("MC_Order", "MC_Order.cfg", {"quick": {"MaxDepth": "1"}, "thorough": {"MaxDepth": "2"}}),
+        gens=[("Gen_Order", "Gen_Order.cfg", "bfs", {"quick": dict(depth=1, consts={}), "thorough": dict(depth=1, consts={})}),
+              ("Gen_Order", "Gen_Order.cfg", "sim", {"quick": dict(num=200, depth=5, consts={}, seeds=1),
+                                                    "thorough": dict(num=2000, depth=8, consts={}, seeds=3)})],
+        replays=[dict(mode="instrswap", controls="", swap=True)]),
     "FEES": dict(
         mc=("MC_Fees", "MC_Fees.cfg", {"quick": {"FeeSet": '"small"'}, "thorough": {"FeeSet": '"full"'}}),
         shards={"quick": [{"Amounts": "{%d}" % a} for a in (1, 3, 10000, 10001, 199999)],
@@ -47,8 +65,14 @@ PROPS = {
                 rule="non-trivial = an orbiter packet received while the orbiter account holds coins, with the paired control run on the emptied account executed; distinct = distinct (pre-state, input)"),
     "C12": dict(families=["FUNDS"], groups=["stats"], level="model_checking",
                 rule="non-trivial = a successful orbiter transfer (statistics must change by exactly that transfer); all other steps are checked for 'unchanged'; distinct = distinct (pre-state, input)"),
+    "C03": dict(families=["FAULT", "FUNDS"], groups=["ack", "fired"], level="fault_enumeration", exhaustive=True,
+                rule="FAULT: every (payload shape x armed fault set x clean/dusty state) is one execution with fault wrappers around the real dependencies; FUNDS: naturally occurring failures; non-trivial = a reception in which an armed fault actually fired or the transfer was refused; distinct = distinct (pre-state, input incl. fault set)"),
+    "C06": dict(families=["ORDER"], groups=["ack", "actions", "req"], level="model_checking",
+                rule="non-trivial = a packet whose payload carries actions (executed with recording decorators around the fee controller and the swap test controller) or repeats an action id; distinct = distinct (pre-state, input)"),
     "C04": dict(families=["FEES"], groups=["ack", "bal"], level="model_checking", exhaustive=True,
                 rule="every grid point (amount x fee-entry list) is one packet through the real application; non-trivial = the payload carries a fee action that parses; distinct = distinct abstract input"),
+    "C05": dict(families=["REQ"], groups=["ack", "req"], level="model_checking", exhaustive=True,
+                rule="every grid point (protocol id x attribute type x attribute values x pre-action) is one packet, executed once with recording wrappers around the real bridge servers and once through the simapp wiring; non-trivial = a successful transfer (request compared) or a mismatched/unrouted payload (must be refused); distinct = distinct abstract input x wiring"),
     "C08": dict(families=["PAUSE"], groups=["ack", "pause"], level="model_checking",
                 rule="non-trivial = a transfer with a parseable payload received while some protocol/destination is paused, or a pause/unpause message; distinct = distinct (pre-state, input)"),
     "C09": dict(families=["PAUSE"], groups=["ack", "pause"], level="model_checking",
@@ -112,17 +136,27 @@ def run_family(fam, tier, seed, wd, specdir, report):
                 for j, h in enumerate(hs):
                     behs.append({"b": "%s-sim%d-s%d-%d" % (fam, gi, sd, j), "steps": h})
                 log("generated %d random histories of length %d (%s, seed %d) in %.0fs" % (len(hs), t["depth"], gmod, sd, dt))
-    # 3. replay in the real code
-    trace, dt = replay(behs, wd, fam, mode=F["mode"], controls=F["controls"], extra=F.get("extra"))
-    log("replayed %d behaviours in the real code in %.0fs" % (len(behs), dt))
-    # 4. trace validation
-    recs, evs, dt = validate(specdir, trace, F["swap"])
-    log("validated %d observed steps against the specification in %.0fs" % (len(recs), dt))
-    report["families"][fam] = dict(behaviours=len(behs), steps=len(recs), mode=F["mode"], controls=F["controls"])
-    return behs, recs, evs, F
+    # 3. replay in the real code (possibly under several harness wirings) and 4. trace validation
+    replays = F.get("replays") or [dict(mode=F["mode"], controls=F["controls"], swap=F["swap"])]
+    all_recs, all_evs, by_id = [], [], {}
+    for ri, R in enumerate(replays):
+        tagged = [{"b": "%s@%s" % (b["b"], R["mode"]), "steps": b["steps"]} for b in behs]
+        trace, dt = replay(tagged, wd, "%s-%s" % (fam, R["mode"]), mode=R["mode"], controls=R["controls"], extra=R.get("extra"))
+        log("replayed %d behaviours in the real code (%s mode) in %.0fs" % (len(tagged), R["mode"], dt))
+        recs, evs, dt = validate(specdir, trace, R.get("swap", False))
+        log("validated %d observed steps against the specification in %.0fs" % (len(recs), dt))
+        off = len(all_evs)
+        for r in recs:
+            r["k"] += off
+        all_recs += recs
+        all_evs += evs
+        for b in tagged:
+            by_id[b["b"]] = (b, R)
+    report["families"][fam] = dict(behaviours=len(behs), steps=len(all_recs), replays=[dict(mode=R["mode"], controls=R["controls"]) for R in replays])
+    return behs, all_recs, all_evs, by_id
 
 
-def attribute(prop, recs, evs, behs_by_id, F, wd, specdir, report):
+def attribute(prop, recs, evs, behs_by_id, wd, specdir, report):
     """Turn validator records into verdicts for `prop`."""
     P = PROPS[prop]
     known = load_known()
@@ -184,8 +218,8 @@ def attribute(prop, recs, evs, behs_by_id, F, wd, specdir, report):
         seen_sig.add(sig)
         if len(violations) >= 5:
             break
-        b = behs_by_id[r["b"]]
-        rp = dict(property=prop, mode=F["mode"], controls=F["controls"], swap=F["swap"], extra=F.get("extra"),
+        b, R = behs_by_id[r["b"]]
+        rp = dict(property=prop, mode=R["mode"], controls=R["controls"], swap=R.get("swap", False), extra=R.get("extra"),
                   behaviour={"b": "replay", "steps": b["steps"][:r["i"]]}, step=r["i"],
                   concrete=ev.get("concrete"), input=in_summary(ev["in"]), result=ev["res"])
         os.makedirs(os.path.join(WORK, "replay"), exist_ok=True)
@@ -239,9 +273,8 @@ def check(prop, tier):
     all_viol = []
     samples = []
     for fam in P["families"]:
-        behs, recs, evs, F = run_family(fam, tier, seed, wd, specdir, report)
-        by_id = {b["b"]: b for b in behs}
-        all_viol += attribute(prop, recs, evs, by_id, F, wd, specdir, report)
+        behs, recs, evs, by_id = run_family(fam, tier, seed, wd, specdir, report)
+        all_viol += attribute(prop, recs, evs, by_id, wd, specdir, report)
         # samples: a few actual non-trivial observed steps
         k = 0
         for r in recs:
